@@ -7,6 +7,9 @@ import (
 	"encoding/json"
 	"fmt"
 	"math/rand/v2"
+	"runtime"
+	"sort"
+	"time"
 
 	"github.com/ava-labs/avalanchego/ids"
 	"github.com/ava-labs/avalanchego/trace"
@@ -118,6 +121,7 @@ func (w *morphWorld) fixture() (*chainfx.Fixture, error) {
 
 // morphModel: balances as a plain map; an address with balance 0 has no entry.
 type morphModel struct {
+	start map[codec.Address]uint64 // balances when the current block started (generator hint only)
 	bal   map[codec.Address]uint64
 	units *chainfx.Model // only used for Units (declared keys -> units), shares no state
 }
@@ -133,7 +137,7 @@ func (w *morphWorld) model() *morphModel {
 }
 
 func (m *morphModel) clone() *morphModel {
-	n := &morphModel{bal: make(map[codec.Address]uint64, len(m.bal)), units: m.units}
+	n := &morphModel{bal: make(map[codec.Address]uint64, len(m.bal)), units: m.units, start: m.start}
 	for k, v := range m.bal {
 		n.bal[k] = v
 	}
@@ -302,6 +306,21 @@ func (w *morphWorld) genTransferTx(rng *rand.Rand, m *morphModel, ts int64, maxA
 			v = ^uint64(0) - uint64(rng.IntN(1000))
 		case 6:
 			v = 1
+		case 7, 8:
+			// refill some account (preferably one emptied earlier in this block) to exactly
+			// the balance it had when the block started; the recipient address has a fixed
+			// width, so re-targeting does not change the fee computed above
+			var cands []codec.Address
+			for a, start := range m.start {
+				if cur := get(a); cur < start && (cur == 0 || rng.IntN(3) == 0) {
+					cands = append(cands, a)
+				}
+			}
+			if len(cands) > 0 {
+				sort.Slice(cands, func(x, y int) bool { return string(cands[x][:]) < string(cands[y][:]) })
+				tos[i] = cands[rng.IntN(len(cands))]
+				v = m.start[tos[i]] - get(tos[i])
+			}
 		default:
 			if running > 0 {
 				v = 1 + rng.Uint64N(running/uint64(1+rng.IntN(4))+1)
@@ -335,4 +354,28 @@ func chainfxBH() chain.BalanceHandler { return balance.NewPrefixBalanceHandler([
 
 func allocOf(a codec.Address, v uint64) []*genesis.CustomAllocation {
 	return []*genesis.CustomAllocation{{Address: a, Balance: v}}
+}
+
+// slowView delays reads of the parent state by a key-dependent amount so that
+// prefetches are still in flight when later transactions are registered (a
+// "slow disk"); it returns exactly what the wrapped view returns.
+type slowView struct {
+	merkledb.View
+	salt uint64
+}
+
+func (v *slowView) GetValue(ctx context.Context, key []byte) ([]byte, error) {
+	h := v.salt
+	for _, b := range key {
+		h = (h ^ uint64(b)) * 1099511628211
+	}
+	switch h % 4 {
+	case 0:
+		for i := uint64(0); i < (h>>8)%300; i++ {
+			runtime.Gosched()
+		}
+	case 1:
+		time.Sleep(time.Duration((h>>8)%200) * time.Microsecond)
+	}
+	return v.View.GetValue(ctx, key)
 }
